@@ -49,7 +49,28 @@ def tasks(tier, seed):
     t = [(MOD, "hyp", (n // shards, seed * 1_000_003 + i, tier)) for i in range(shards)]
     t += [(MOD, "singles", (i, 8, tier)) for i in range(8)]
     t += [(MOD, "pairs", (i, 32, tier)) for i in range(32)]
+    t += [(MOD, "groups", (i, 8, tier)) for i in range(8)]
     return t
+
+
+def _expr_tree(e):
+    """Operand expression of c02's tables -> one marker tree (the whole thing is written as ONE text here)."""
+    if e[0] == "parse":
+        return e[1]
+    return [e[0], [_expr_tree(e[1]), _expr_tree(e[2])]]
+
+
+def groups(acc, shard, nshards, tier):
+    """==-groups / !=-groups (and single atoms) on one string variable, every ordered pair joined by and / or in one
+    text, parenthesised: the group x group rules are only reached with four or more atoms on one variable."""
+    acc.exhaustive_layers.add("L1-group-pair-texts")
+    mod = sys.modules[MOD]
+    i = 0
+    for case in c02.table_cases("str-group-pairs", tier):
+        for op in ("and", "or"):
+            i += 1
+            if i % nshards == shard:
+                harness.process(mod, acc, "text", {"tree": [op, [_expr_tree(case["a"]), _expr_tree(case["b"])]], "context": "metadata"}, "L1-group-pair-texts")
 
 
 def pairs(acc, shard, nshards, tier):
